@@ -582,5 +582,5 @@ class EmptySigmaDetections(SigmaDetections):
     condition: list[str] = field(default_factory=list)
 
     def __post_init__(self: Self) -> None:
-        # Skip all checks and initializations
-        pass
+        # Skip all checks, there are no conditions to parse
+        self.parsed_condition = []
